@@ -598,7 +598,9 @@ func consumeDisplayString(s string) (consumed, rest string, ok bool) {
 		runeLen++
 		if utf8.FullRune(lastRune[:runeLen]) {
 			r, s := utf8.DecodeRune(lastRune[:runeLen])
-			if r == utf8.RuneError {
+			// A RuneError of width 1 is an invalid encoding; a wider one is
+			// a correctly encoded U+FFFD.
+			if r == utf8.RuneError && s == 1 {
 				return false
 			}
 			copy(lastRune[:], lastRune[s:runeLen])
